@@ -2,7 +2,7 @@
 import gen
 import msggen
 
-QUICK = ["msg1013", "msg1017", "msg1057", "msg1060", "msg1033", "msg1008"]
+QUICK = ["msg1013", "msg1017", "msg1057", "msg1060", "msg1033", "msg1008", "msg1007"]
 
 
 class Lay:
@@ -187,7 +187,11 @@ pub fn %(name)s() {
     assert!(c::decode(&mut par).is_err());
 }
 """ % {"unw": max(12, min(G.max_cap(mod), 64) + 2), "name": name, "mod": mod, "nb": nb, "patch": c02.concrete_bytes(patches, nb)})
-                    hs.append({"name": "c15gen::%s" % name, "group": "main", "tier": "quick" if (q and val == c + 1) else "thorough",
+                    # quick: the LAST count field of the message (a change that accepts the count then meets
+                    # only fixed-width fields; an earlier string would make the following counters symbolic
+                    # on such a change and the run hangs instead of failing)
+                    last_ci = max(i3 for i3, (_, w3, _, c3) in enumerate(lay0.counts) if (1 << w3) - 1 > c3)
+                    hs.append({"name": "c15gen::%s" % name, "group": "main", "tier": "quick" if (q and val == c + 1 and ci == last_ci) else "thorough",
                                "bounds": "%s: count field %s (%d bits) = %d > capacity %d, other counts 0, %d-byte payload otherwise symbolic => Err (Corrupt)" % (mod, path, w, val, c, nb)})
         name = "%s_trunc" % mod
         lay2b, build2, _ = build_expr(G, mod, 2)
